@@ -568,7 +568,10 @@ class HyReader(Reader):
         else:
             if has_debug and conversion is None:
                 conversion = "r"
-            if not self.getc() == "}":
+            c = self.getc()
+            if not c:
+                raise PrematureEndOfInput.from_reader(f"Premature end of input in {fstring_mode}-string field", self)
+            if c != "}":
                 raise LexException.from_reader(f"{fstring_mode}-string: trailing junk in field", self)
         return values + [
             self.fill_pos(FComponent((model, *format_components), conversion=conversion, expression=form_text, is_tstring=fstring_mode == "t"), start)
